@@ -89,6 +89,25 @@ def _inline_context_managers(tree: ast.Module) -> int:
                 return not exceptional
             if txt in (f"{err} is not None", f"{exit_type} is not None"):
                 return exceptional
+            if isinstance(t, ast.BoolOp):
+                vals = [const_test(v) for v in t.values]
+                if isinstance(t.op, ast.And):
+                    if any(v is False for v in vals):
+                        return False
+                    if all(v is True for v in vals):
+                        return True
+                    t.values = [v_ for v_, c_ in zip(t.values, vals) if c_ is None]  # drop the conjuncts that are known to hold
+                else:
+                    if any(v is True for v in vals):
+                        return True
+                    if all(v is False for v in vals):
+                        return False
+                    t.values = [v_ for v_, c_ in zip(t.values, vals) if c_ is None]
+                if len(t.values) == 1:
+                    t.__class__, t.__dict__ = t.values[0].__class__, t.values[0].__dict__
+            if isinstance(t, ast.UnaryOp) and isinstance(t.op, ast.Not):
+                v = const_test(t.operand)
+                return None if v is None else (not v)
             return None
         out = []
         for s_ in stmts:
@@ -149,8 +168,30 @@ def _inline_context_managers(tree: ast.Module) -> int:
                     continue
                 exc_body = specialise(copy.deepcopy(xb), err, True)
                 norm_body = specialise(copy.deepcopy(xb), err, False)
-                if exc_body is None or norm_body is None or any(not isinstance(s_, ast.Pass) for s_ in norm_body):
+                if exc_body is None or norm_body is None:
                     continue
+                # what __exit__ does when the block ended normally goes to the `else:` of the try (`error` is None there)
+                if norm_body and isinstance(norm_body[-1], ast.Pass) and getattr(norm_body[-1], "_ends", False):
+                    norm_body = norm_body[:-1]
+                if any(getattr(x, "_ends", False) for s_ in norm_body for x in ast.walk(s_)):
+                    # a return in the middle of the normal case: keep it as the end of an if-arm only if the rest is its else-arm
+                    def restructure(stmts):
+                        for k, s_ in enumerate(stmts):
+                            if isinstance(s_, ast.If) and s_.body and getattr(s_.body[-1], "_ends", False) and not s_.orelse:
+                                s_.body = s_.body[:-1] or [ast.Pass()]
+                                s_.orelse = restructure(stmts[k + 1:])
+                                return stmts[:k + 1]
+                        return stmts
+                    norm_body = restructure(norm_body)
+                    if any(getattr(x, "_ends", False) for s_ in norm_body for x in ast.walk(s_)):
+                        continue
+
+                class NoErr(ast.NodeTransformer):
+                    def visit_Name(self, node):
+                        if node.id == err and isinstance(node.ctx, ast.Load):
+                            return ast.copy_location(ast.Constant(value=None), node)
+                        return node
+                norm_body = [NoErr().visit(s_) for s_ in norm_body if not isinstance(s_, ast.Pass)]
                 if not (exc_body and isinstance(exc_body[-1], (ast.Raise, ast.Pass)) and getattr(exc_body[-1], "_ends", False)):
                     exc_body.append(ast.copy_location(ast.Raise(exc=None, cause=None), st))  # falling off __exit__ returns None: propagate
 
@@ -162,8 +203,9 @@ def _inline_context_managers(tree: ast.Module) -> int:
                         return node
                 enter_stmts = [Sub().visit(copy.deepcopy(s_)) for s_ in eb]
                 exc_body = [Sub().visit(s_) for s_ in exc_body]
+                norm_body = [Sub().visit(s_) for s_ in norm_body]
                 tr = ast.Try(body=st.body, handlers=[ast.ExceptHandler(type=ast.Name(id="BaseException", ctx=ast.Load()), name=err, body=exc_body)],
-                             orelse=[], finalbody=[])
+                             orelse=norm_body, finalbody=[])
                 ast.copy_location(tr, st)
                 new = enter_stmts + [tr]
                 for n_ in new:
